@@ -77,7 +77,10 @@ class C09(F.Spec):
         run = int(full * rng.choice([0.05, 0.3, 0.5, 0.9, 1.0, 1.2])) * 1000    # µs
         run = max(1000, min(run, 590 * 1000000))
         dur = ((opening // 100) << 16) | (closing // 100)
-        ops = ["boot %d" % rng.choice([12345, 4294967295 - 3000000, rng.getrandbits(32) | 1]), "board rs1 0", "init", "calllog 1", "rstimes 0 %d %d %d %d" % (opening, closing, tms, tt), "rspos 0 %d %d" % (p0, t0),
+        # what the motor sensor reports must not matter for a shutter with configured times: always moving, never moving,
+        # moving after a start-up time
+        sensor = rng.choice(["motor 1 0 1 1", "motor 1 0 1 1", "motor 2 0 1 1", "motor 0 %d 3600000 3600000" % rng.choice([100, 500, 1500, 2500])])
+        ops = ["boot %d" % rng.choice([12345, 4294967295 - 3000000, rng.getrandbits(32) | 1]), "board rs1 0", sensor, "init", "calllog 1", "rstimes 0 %d %d %d %d" % (opening, closing, tms, tt), "rspos 0 %d %d" % (p0, t0),
                "rsmanual 0", "adv 1500", "rstick 0 10000", "rstick 0 0",
                "msg 110 " + set_value(7, 0, dur, [2 if up else 1]).hex()]
         left = run
